@@ -3,7 +3,6 @@
 package main
 
 import (
-	"sync/atomic"
 	"bufio"
 	"encoding/hex"
 	"encoding/json"
@@ -13,6 +12,7 @@ import (
 	"path/filepath"
 	"sort"
 	"strings"
+	"sync/atomic"
 	"time"
 )
 
